@@ -21,7 +21,7 @@ import (
 func TestMain(m *testing.M) { vfx.Main(m) }
 
 type Mod struct {
-	Kind  string // identity | bitflip | setbyte | truncate | extend | splice | header-label | aad-label | foreign-cluster | foreign-key | removed-key | removed-key-midstream | key-added-midstream | unknown-key-added | secondary-key | plaintext | double-seal
+	Kind  string // identity | bitflip | setbyte | truncate | extend | splice | header-label | aad-label | foreign-cluster | foreign-key | removed-key | other-key-removed | removed-key-midstream | key-added-midstream | unknown-key-added | secondary-key | plaintext | double-seal
 	Pos   int    `json:",omitempty"` // per-mille of the length (bitflip/setbyte/truncate/splice)
 	Field string `json:",omitempty"` // bitflip target: any | version | nonce | body | tag | lenprefix | typebyte | label
 	Bit   int    `json:",omitempty"`
@@ -47,7 +47,7 @@ func genPlan(t *rapid.T) Plan {
 		G: rapid.IntRange(0, len(corpus)-1).Draw(t, "g")}
 	p.Skip = p.Label != "" && rapid.IntRange(0, 2).Draw(t, "skip") == 0
 	m := Mod{Kind: rapid.SampledFrom([]string{"bitflip", "bitflip", "bitflip", "bitflip", "setbyte", "truncate", "extend", "splice", "header-label", "aad-label", "foreign-cluster",
-		"foreign-key", "removed-key", "removed-key-midstream", "removed-key-midstream", "key-added-midstream", "unknown-key-added", "secondary-key", "plaintext", "double-seal", "identity", "version-flip", "version-flip"}).Draw(t, "mod")}
+		"foreign-key", "removed-key", "removed-key", "other-key-removed", "removed-key-midstream", "removed-key-midstream", "key-added-midstream", "unknown-key-added", "secondary-key", "plaintext", "double-seal", "identity", "version-flip", "version-flip"}).Draw(t, "mod")}
 	m.Pos = rapid.IntRange(0, 999).Draw(t, "pos")
 	m.Field = rapid.SampledFrom([]string{"any", "version", "nonce", "body", "tag", "lenprefix", "typebyte", "label"}).Draw(t, "field")
 	m.Bit = rapid.IntRange(0, 7).Draw(t, "bit")
@@ -177,6 +177,7 @@ func runPlan(pl Plan) (res vfx.Result) {
 	m := pl.Mod
 	var prep func(w *hostile.World)
 	mustBeNothing := false
+	mustBeGenuine := false
 	desc := m.Kind
 	known := ""
 	pick := func() int {
@@ -291,13 +292,33 @@ func runPlan(pl Plan) (res vfx.Result) {
 		mod = seal(g.Plain, g.Stream, hostile.KeyForeign, vsn, pl.Label, hdr, 7)
 		mustBeNothing = true
 	case "removed-key":
-		mod = seal(g.Plain, g.Stream, hostile.KeyB, vsn, pl.Label, hdr, 7)
+		// the ring holds three keys: the removed one is the middle or the last one
+		rk := hostile.KeyB
+		if m.Pos%2 == 1 {
+			rk = hostile.KeyC
+		}
+		mod = seal(g.Plain, g.Stream, rk, vsn, pl.Label, hdr, 7)
 		prep = func(w *hostile.World) {
-			if err := w.P.MC.Keyring.RemoveKey(hostile.KeyB); err != nil {
+			if err := w.P.MC.Keyring.RemoveKey(rk); err != nil {
 				panic(err)
 			}
 		}
 		mustBeNothing = true
+		desc = fmt.Sprintf("sealed under removed key #%d of 3", 2+m.Pos%2)
+	case "other-key-removed":
+		// removing one secondary key must leave the other one usable: exactly the genuine outcome
+		rk, uk := hostile.KeyB, hostile.KeyC
+		if m.Pos%2 == 1 {
+			rk, uk = hostile.KeyC, hostile.KeyB
+		}
+		mod = seal(g.Plain, g.Stream, uk, vsn, pl.Label, hdr, 7)
+		prep = func(w *hostile.World) {
+			if err := w.P.MC.Keyring.RemoveKey(rk); err != nil {
+				panic(err)
+			}
+		}
+		mustBeGenuine = true
+		desc = fmt.Sprintf("sealed under installed key #%d of 3 after key #%d was removed", 2+(m.Pos+1)%2, 2+m.Pos%2)
 	case "removed-key-midstream", "key-added-midstream":
 		// rotation racing a stream: the first part (up to the label header, the type byte, the length prefix, or into
 		// the body) has been read by the node when the key is removed / installed; the rest arrives afterwards
@@ -338,7 +359,12 @@ func runPlan(pl Plan) (res vfx.Result) {
 			}
 		}
 	case "secondary-key":
-		mod = seal(g.Plain, g.Stream, hostile.KeyB, vsn, pl.Label, hdr, 7)
+		sk := hostile.KeyB
+		if m.Pos%2 == 1 {
+			sk = hostile.KeyC
+		}
+		mod = seal(g.Plain, g.Stream, sk, vsn, pl.Label, hdr, 7)
+		mustBeGenuine = true
 	case "plaintext":
 		mod = wire.LabelWrap(append([]byte(nil), g.Plain...), hdr)
 		mustBeNothing = true
@@ -383,6 +409,9 @@ func runPlan(pl Plan) (res vfx.Result) {
 			return fail("sanity: delivering the genuine %s twice gave different outcomes:\n%s\n%s", g.Name, oGen.Key(), oMod.Key())
 		}
 		return res
+	}
+	if mustBeGenuine && !isGenuine {
+		return fail("%s (%s, label %q, encryption version %d): must have exactly the effect of the genuine message, but the outcome was\n  %s\ngenuine:\n  %s", g.Name, desc, pl.Label, vsn, oMod.Key(), oGen.Key())
 	}
 	if mustBeNothing && !isNothing {
 		return fail("%s (%s, label %q, encryption version %d): must be dropped without effect, but the outcome was\n  %s\nwith nothing delivered it is\n  %s", g.Name, desc, pl.Label, vsn, oMod.Key(), nothingKey)
